@@ -557,6 +557,7 @@ func coordinator() {
 		s0 = append(s0, mkRun(h, Sched{}))
 	}
 	if !execRuns(s0) {
+		os.RemoveAll(scratch)
 		core.Finish(r)
 	}
 	var devs []*runInfo
@@ -961,6 +962,7 @@ func coordinator() {
 		r.Violate(c.fp, c.what, c.replay)
 	}
 	describeBounds(r, cfg, setup)
+	os.RemoveAll(scratch) // (core.Finish exits the process: deferred calls do not run)
 	core.Finish(r)
 }
 
